@@ -148,6 +148,10 @@ def ensure_facts(all_targets=False, repo=REPO):
 # --------------------------------------------------------------------------
 # program model
 
+import functools
+
+
+@functools.lru_cache(maxsize=200000)
 def strip_generics(p):
     """Remove generic argument lists from a def path / type string.
 
@@ -360,7 +364,11 @@ class Body:
         return seen
 
     def live_blocks(self):
-        return self.reachable(0)
+        lb = getattr(self, "_live", None)
+        if lb is None:
+            lb = self.reachable(0)
+            self._live = lb
+        return lb
 
     def dominators(self):
         """dom[b] = set of blocks dominating b (incl. b), over reachable blocks."""
@@ -442,26 +450,44 @@ class Body:
                 yield i, t
 
     def assigns(self):
-        for i in sorted(self.live_blocks()):
-            for k, st in enumerate(self.blocks[i]["stmts"]):
-                if st["s"] == "assign":
-                    yield i, k, Place(st["place"]), st["rv"], st
+        c = getattr(self, "_assigns", None)
+        if c is None:
+            c = []
+            for i in sorted(self.live_blocks()):
+                for k, st in enumerate(self.blocks[i]["stmts"]):
+                    if st["s"] == "assign":
+                        c.append((i, k, Place(st["place"]), st["rv"], st))
+            self._assigns = c
+        return c
 
     def defs_of(self, local):
         """all definitions of a local: ('assign', bb, idx, rv) / ('call', bb, term)
         / ('yield', bb, term) (whole-local writes only)."""
-        out = []
-        for i in sorted(self.live_blocks()):
-            blk = self.blocks[i]
-            for k, st in enumerate(blk["stmts"]):
-                if st["s"] == "assign" and st["place"][0] == local and not st["place"][1]:
-                    out.append(("assign", i, k, st["rv"]))
-            t = blk["term"]
-            if t["t"] == "call" and t["dest"][0] == local and not t["dest"][1]:
-                out.append(("call", i, "term", t))
-            if t["t"] == "yield" and t["resume_arg"][0] == local and not t["resume_arg"][1]:
-                out.append(("yield", i, "term", t))
-        return out
+        idx = getattr(self, "_defs", None)
+        if idx is None:
+            idx = {}
+            for i in sorted(self.live_blocks()):
+                blk = self.blocks[i]
+                for k, st in enumerate(blk["stmts"]):
+                    if st["s"] == "assign" and not st["place"][1]:
+                        idx.setdefault(st["place"][0], []).append(("assign", i, k, st["rv"]))
+                t = blk["term"]
+                if t["t"] == "call" and not t["dest"][1]:
+                    idx.setdefault(t["dest"][0], []).append(("call", i, "term", t))
+                if t["t"] == "yield" and not t["resume_arg"][1]:
+                    idx.setdefault(t["resume_arg"][0], []).append(("yield", i, "term", t))
+            self._defs = idx
+        return list(idx.get(local, ()))
+
+    def partial_writes(self, local):
+        idx = getattr(self, "_pw", None)
+        if idx is None:
+            idx = {}
+            for i, k, pl, rv, st in self.assigns():
+                if pl.proj:
+                    idx.setdefault(pl.local, []).append((i, k, pl, rv, st))
+            self._pw = idx
+        return idx.get(local, ())
 
     def __repr__(self):
         return "<Body %s>" % self.path
